@@ -279,7 +279,7 @@ class _:
             if alg.startswith("cp_apr") or alg == "gcp_lbfgsb":
                 return
             Xs = rs.randn(*shp) * 0.05 + kfull(U, np.array([3.0, 2.0]))
-            for c in (7.5, 1e-6, 1e5):
+            for c in (7.5, 1e-6, 1e-9, 1e5):
                 A = self._run(ttb, alg, ttb.tensor(Xs.copy()), init(), 1, tol=1e-3)
                 B = self._run(ttb, alg, ttb.tensor(c * Xs), init(), 1, tol=1e-3)
                 if isinstance(A, ttb.ttensor) and tuple(A.core.shape) != tuple(B.core.shape):
